@@ -96,6 +96,13 @@ def search_ok(engine, lit, wrap):
     hit = pattern.regexp.search("xx " + text + " yy")
     if not hit or hit.group(0) != text:
         return False, f"does not find its own text {text!r}"
+    # the line scanner used by grep/update (parse.iter_matches) must report that line too
+    from bumpver import parse
+
+    filler = next(c for c in "qzjkw0123456789_~#@" if c not in text and c not in "xy ") * 5  # a line that cannot contain the text
+    ms = list(parse.iter_matches([filler, "xx " + text + " yy"], [pattern]))
+    if [(m.lineno, m.match) for m in ms] != [(1, text)]:
+        return False, f"parse.iter_matches reports {[(m.lineno, m.match) for m in ms]} for the line containing {text!r}"
     for other in [m + ("7" if wrap else "") for m in mutations(shown)]:
         if text in other:
             continue
